@@ -42,8 +42,11 @@ variant) and must be HARD TO EXPOSE: the fault should manifest only under a narr
 and boundary-value test campaign would very likely miss. Such a campaign typically covers: random and boundary values of every field, every
 chunking of a stream, sizes next to powers of two and to the protocol's limits, several objects used alternately, threads, inputs held in
 bytes / bytearray / memoryview, pairs of inputs with equal CRC-32, sentinel date-times (epochs, midnight), control characters and NULs in
-text, values that look like protocol structure, unusual process environments (python -O, time zones, logging levels, clock jumps), restart
-after close. Pick something else - see also the list of earlier faults above for what has been tried.
+text, values that look like protocol structure, unusual process environments (python -O, time zones, logging levels, clock jumps, a low
+decimal precision, one decoder module imported alone), restart after close, copies / pickles of objects, damaged messages decoded before
+good ones, reserved values of every encoded field, coincidences between two fields of one message, every splitting of short streams
+into up to three calls, several-MiB calls, byte-identical messages repeated, transports of every address family, late connection_lost.
+Pick something else - see also the list of earlier faults above for what has been tried.
 {extra}
 Avoid faults that show on the first ordinary message. The two changes must differ in mechanism. Do not edit tests.
 
